@@ -15,6 +15,7 @@ THEOREMS = ['cleanup_freq', 'cleanup_conservative', 'cleanup_greedy', 'cleanup_a
             'cumulant_spec', 'step_preserves_Inv', 'reachable_Inv', 'served_value_is_fresh',
             'history_independent', 'copies_independent', 'pc_error_iff', 'hstep_preserves',
             'heap_reachable_Inv', 'heap_served_fresh']
+PINS = ['C07_body_get_control_matrix', 'C07_body_cache_control_matrix', 'C07_body_get_filter_function', 'C07_body_cache_filter_function', 'C07_body_get_pulse_correlation_filter_function', 'C07_body_get_filter_function_derivative', 'C07_body_get_total_phases', 'C07_body_cache_total_phases', 'C07_body_diagonalize', 'C07_body_copy', 'C07_body_deepcopy', 'C07_body_get_pulse_correlation_control_matrix']
 GEN_SITES = ['cache:cleanup', 'cache:init', 'cache:aliases', 'cache:intermediates']
 COMPONENTS = ['cache_machine', 'cache_machine_motifs']
 RULES = ['histories: seeded random sequences of public calls (getters, explicit cachers, every '
@@ -53,8 +54,11 @@ class World:
                 self.descs[1]['n_opers'] = self.descs[0]['n_opers']
                 self.descs[1]['c_opers'] = self.descs[0]['c_opers']
             n = int(rng.integers(4, 8))
-            self.w = {1: np.sort(rng.uniform(0.1, 5, n)), 2: np.sort(rng.uniform(0.1, 5, n)),
-                      3: np.sort(rng.uniform(0.1, 5, n + 2))}
+            w1 = np.sort(rng.uniform(0.1, 5, n))
+            # grid 2 has the length of grid 1; in every other world it is grid 1 up to a relative
+            # shift of 3e-6 (equal "within tolerance", different as arrays: it is another grid)
+            w2 = w1*(1 + 3e-6) if rng.random() < 0.5 else np.sort(rng.uniform(0.1, 5, n))
+            self.w = {1: w1, 2: w2, 3: np.sort(rng.uniform(0.1, 5, n + 2))}
         else:
             self.descs = descs
             self.w = {int(k): np.asarray(v, dtype=float) for k, v in grids.items()}
